@@ -111,6 +111,20 @@ func ledgerStrata() []stratum {
 			c.POriginVar, c.PNegBal, c.POverdraft, c.PUnbounded, c.PWorld, c.PAbsent = 40, 35, 45, 5, 5, 3
 			c.MinStmts, c.MaxStmts, c.Depth, c.PSrcSeq = 2, 5, 1, 40
 		}), 2},
+		{"wide150", with(func(c *gen.LCfg) {
+			// more than 128 funded accounts drawn by one statement
+			c.Accounts = manyAccountsL(170)
+			c.Assets = []string{"USD"}
+			c.PLongSrc, c.PFunded, c.PRepeat = 100, 96, 4
+			c.Depth, c.Fanout, c.MinStmts, c.MaxStmts, c.PSave, c.PMetaStmt, c.PSendAll, c.PWorld = 1, 170, 1, 3, 5, 0, 5, 2
+		}), 1},
+		{"concat", with(func(c *gen.LCfg) {
+			// account and asset names whose concatenations coincide: userA + USD == user + AUSD
+			c.Accounts = []string{"user", "userA", "a", "aB", "ab", "abT"}
+			c.Assets = []string{"USD", "AUSD", "BTC", "TC", "C"}
+			c.MultiAsset = true
+			c.MinStmts, c.MaxStmts, c.Depth, c.PSrcSeq, c.PWorld, c.PAbsent, c.PFunded = 2, 5, 1, 45, 4, 3, 60
+		}), 1},
 		{"longsrc", with(func(c *gen.LCfg) {
 			// several statements in a row that each draw from a dozen or more funded accounts
 			c.Accounts = manyAccountsL(60)
@@ -121,7 +135,7 @@ func ledgerStrata() []stratum {
 		}), 2},
 		{"colons", with(func(c *gen.LCfg) {
 			// segmented names whose concatenations collide: x:y + z  ==  x + y:z
-			c.Accounts = []string{"x:y", "x", "y:z", "z", "y", "users:001:wallet", "main"}
+			c.Accounts = []string{"x:y", "x", "y:z", "z", "y", "users:001:wallet", "main", "x-y", "y-z", "users-eu", "users", "eu-main", "a_b", "b_c", "a", "c"}
 			c.Assets = []string{"USD"}
 			c.PSrcSeq, c.PDstSeq, c.PWorld, c.Depth, c.PAligned = 60, 60, 3, 2, 40
 			c.DestWorld = false
